@@ -12,29 +12,51 @@ Trace == ndJsonDeserialize("trace.ndjson")
 Chk(c, prop, aspect, detail) == IF c THEN TRUE ELSE PrintT(<<"VIOL", tid, (IF "i" \in DOMAIN Trace[l] THEN Trace[l].i ELSE 0), prop, aspect, detail>>)
 
 InSeq(q, x) == \E k \in 1..Len(q) : q[k] = x
-\* result: [items |-> sequence of [d, pfx], cyclic |-> BOOLEAN]
-RECURSIVE ExpandFile(_, _, _, _), ExpandItems(_, _, _, _, _, _)
-ExpandFile(F, f, pfx, stack) ==
-  IF InSeq(stack, f) THEN [items |-> <<>>, cyclic |-> TRUE]
-  ELSE ExpandItems(F, f, pfx, Append(stack, f), 1, [items |-> <<>>, cyclic |-> FALSE])
-ExpandItems(F, f, pfx, stack, k, acc) ==
-  IF k > Len(F[f].items) \/ acc.cyclic THEN acc
-  ELSE LET it == F[f].items[k] IN
-       IF it.k = "decl" THEN ExpandItems(F, f, pfx, stack, k + 1, [acc EXCEPT !.items = Append(@, [d |-> it.d, pfx |-> pfx])])
-       ELSE LET sub == ExpandFile(F, it.f, IF it.k = "under" THEN Append(pfx, it.key) ELSE pfx, stack)
-                \* an import under a key creates the key even when the file is empty
-                mk == IF it.k = "under" THEN <<[d |-> 0, pfx |-> Append(pfx, it.key)]>> ELSE <<>>
-            IN ExpandItems(F, f, pfx, stack, k + 1, [items |-> acc.items \o mk \o sub.items, cyclic |-> sub.cyclic])
-
+NoDecl == [k |-> "none"]
 Prefixed(d, pfx) ==
   IF pfx = <<>> THEN d
   ELSE CASE d.k \in {"obj", "attr", "anull", "null"} -> [d EXCEPT !.p = pfx \o @]
          [] d.k \in {"edge", "eref", "enull"} -> [d EXCEPT !.s = pfx \o @, !.d = pfx \o @]
          [] OTHER -> d
-DeclOf(x) == IF x.d = 0 THEN [k |-> "obj", p |-> x.pfx, v |-> ""] ELSE Prefixed(Decls[x.d], x.pfx)
+\* what a declaration of file f contributes to the import of f's key sel: its paths below sel, re-rooted
+Restrict(d, sel) ==
+  CASE d.k \in {"obj", "attr", "anull", "null"} ->
+         IF Len(d.p) >= 1 /\ Fold(d.p[1]) = Fold(sel) THEN [d EXCEPT !.p = SubSeq(@, 2, Len(@))] ELSE NoDecl
+    [] d.k \in {"edge", "eref", "enull"} ->
+         LET sIn == Len(d.s) >= 2 /\ Fold(d.s[1]) = Fold(sel)
+             dIn == Len(d.d) >= 2 /\ Fold(d.d[1]) = Fold(sel)
+         IN IF sIn /\ dIn THEN [d EXCEPT !.s = SubSeq(@, 2, Len(@)), !.d = SubSeq(@, 2, Len(@))]
+            \* a connection that leaves the key is not imported, but the end it created below the key is
+            ELSE IF d.k = "edge" /\ sIn THEN [k |-> "obj", p |-> SubSeq(d.s, 2, Len(d.s)), v |-> ""]
+            ELSE IF d.k = "edge" /\ dIn THEN [k |-> "obj", p |-> SubSeq(d.d, 2, Len(d.d)), v |-> ""]
+            ELSE NoDecl
+    [] OTHER -> NoDecl
+RECURSIVE RestrictAll(_, _, _, _)
+RestrictAll(q, sel, pfx, k) ==
+  IF k > Len(q) THEN <<>>
+  ELSE LET r == Restrict(q[k], sel) IN (IF r.k = "none" THEN <<>> ELSE <<Prefixed(r, pfx)>>) \o RestrictAll(q, sel, pfx, k + 1)
+
+\* result: [items |-> sequence of declarations, cyclic |-> BOOLEAN, nokey |-> an imported key the file does not declare]
+RECURSIVE ExpandFile(_, _, _, _), ExpandItems(_, _, _, _, _, _)
+ExpandFile(F, f, pfx, stack) ==
+  IF InSeq(stack, f) THEN [items |-> <<>>, cyclic |-> TRUE, nokey |-> FALSE]
+  ELSE ExpandItems(F, f, pfx, Append(stack, f), 1, [items |-> <<>>, cyclic |-> FALSE, nokey |-> FALSE])
+ExpandItems(F, f, pfx, stack, k, acc) ==
+  IF k > Len(F[f].items) \/ acc.cyclic THEN acc
+  ELSE LET it == F[f].items[k] IN
+       IF it.k = "decl" THEN ExpandItems(F, f, pfx, stack, k + 1, [acc EXCEPT !.items = Append(@, Prefixed(Decls[it.d], pfx))])
+       ELSE IF it.k = "key" THEN
+            \* key: @f.sel - the imported file is expanded on its own, then only what lies below sel is taken, under key
+            LET sub == ExpandFile(F, it.f, <<>>, stack)
+                got == RestrictAll(sub.items, it.sel, Append(pfx, it.key), 1)
+            IN ExpandItems(F, f, pfx, stack, k + 1, [items |-> acc.items \o got, cyclic |-> sub.cyclic, nokey |-> acc.nokey \/ sub.nokey \/ got = <<>>])
+       ELSE LET sub == ExpandFile(F, it.f, IF it.k = "under" THEN Append(pfx, it.key) ELSE pfx, stack)
+                \* an import under a key creates the key even when the file is empty
+                mk == IF it.k = "under" THEN <<[k |-> "obj", p |-> Append(pfx, it.key), v |-> ""]>> ELSE <<>>
+            IN ExpandItems(F, f, pfx, stack, k + 1, [items |-> acc.items \o mk \o sub.items, cyclic |-> sub.cyclic, nokey |-> acc.nokey \/ sub.nokey])
 
 RECURSIVE FoldX(_, _, _)
-FoldX(s, q, k) == IF k > Len(q) THEN s ELSE FoldX(ApplyR(s, DeclOf(q[k]), "stable"), q, k + 1)
+FoldX(s, q, k) == IF k > Len(q) THEN s ELSE FoldX(ApplyR(s, q[k], "stable"), q, k + 1)
 
 Pairs(q) == {<<q[k][1], q[k][2]>> : k \in 1..Len(q)}
 EdgeKey(e) == <<e.src, e.dst, e.sa, e.da>>
@@ -49,8 +71,9 @@ Set(e) ==
   /\ Chk(e.panic = 0 /\ e.hang = 0, "C14", IF e.hang = 1 THEN "compile-did-not-terminate" ELSE "compile-crashed", <<e.msg, e.text>>)
   /\ (e.panic = 0 /\ e.hang = 0) =>
        \* when another error ends compilation first, the cyclic import may not be reached: then any error will do
-       /\ x.cyclic => Chk(e.err = 1 /\ (e.errIsCycle = 1 \/ e.hasEref = 1), "C14", "import-cycle-not-reported", <<e.err, e.msg, e.text>>)
-       /\ ~x.cyclic =>
+       /\ x.cyclic => Chk(e.err = 1 /\ (e.errIsCycle = 1 \/ e.hasEref = 1 \/ e.hasKeyImport = 1), "C14", "import-cycle-not-reported", <<e.err, e.msg, e.text>>)
+       \* an import of a key the file does not declare is an error of its own; the generator avoids it, the model does not judge it
+       /\ (~x.cyclic /\ ~x.nokey) =>
             /\ Chk(e.errIsCycle = 0, "C14", "cycle-reported-for-an-acyclic-file-set", <<e.msg, e.text>>)
             /\ Chk(c.err \/ e.err = 0, "C14", "valid-file-set-rejected", <<e.msg, e.text, e.nullImported, e.importedTwice, e.erefImported>>)
             /\ Chk(~c.err \/ e.err = 1, "C14", "reference-to-a-missing-connection-accepted", <<e.text, e.nullImported, e.importedTwice, e.erefImported>>)
@@ -58,7 +81,7 @@ Set(e) ==
                  /\ Chk(ObjSet(Norm(e.obs)) = ObjSet(Proj(c)) /\ EdgeSet(Norm(e.obs)) = EdgeSet(Proj(c)) /\ Len(e.obs.objs) = Len(c.objs) /\ Len(e.obs.edges) = Len(c.edges),
                         "C14", "import-is-not-inlining",
                         <<ObjSet(Norm(e.obs)) \ ObjSet(Proj(c)), ObjSet(Proj(c)) \ ObjSet(Norm(e.obs)), EdgeSet(Norm(e.obs)) \ EdgeSet(Proj(c)), EdgeSet(Proj(c)) \ EdgeSet(Norm(e.obs)), e.text, e.nullImported, e.importedTwice, e.erefImported>>)
-                 /\ Chk(e.twinErr = 0 /\ e.twinSame = 1, "C14", "file-set-and-its-inlined-twin-compile-differently", <<e.twinErr, e.text, e.twinText, e.nullImported, e.importedTwice, e.erefImported>>)
+                 /\ Chk(e.noTwin = 1 \/ (e.twinErr = 0 /\ e.twinSame = 1), "C14", "file-set-and-its-inlined-twin-compile-differently", <<e.twinErr, e.text, e.twinText, e.nullImported, e.importedTwice, e.erefImported>>)
 
 TInit == l = 1 /\ tid = 0 /\ st = Empty /\ prog = <<>>
 TNext ==
